@@ -70,6 +70,18 @@ def run(ctx: Ctx, rs: RuleSet, tier: str):
   p = ctx.p
   guard = _guard(ctx)
 
+  def cm_target(call, scope):
+    """What `with <call>:` enters: a generator function, a class, or - for a
+    factory function that just returns `Cls(...)` - that class."""
+    tq_ = p.resolve(call.func, scope)
+    if tq_ in p.funcs and tq_ not in p.classes:
+      ret_, _ = c08.fn_return(p.funcs[tq_])
+      if isinstance(ret_, ast.Call):
+        cq_ = p.resolve(ret_.func, p.funcs[tq_])
+        if cq_ in p.classes:
+          return cq_
+    return tq_
+
   # ---- PAIR
   rule = 'PAIR.guard-restore'
   rs.declare(rule, 'every flip of the in-build flag is restored in a finally '
@@ -83,7 +95,7 @@ def run(ctx: Ctx, rs: RuleSet, tier: str):
     if isinstance(n, ast.With):
       for it in n.items:
         if isinstance(it.context_expr, ast.Call):
-          tq = p.resolve(it.context_expr.func, bfn)
+          tq = cm_target(it.context_expr, bfn)
           if tq in p.funcs:
             guard_fns.append(tq)
           elif tq in p.classes:
@@ -180,7 +192,7 @@ def run(ctx: Ctx, rs: RuleSet, tier: str):
   for n in walk_function(bf.node):
     if isinstance(n, ast.With):
       for it in n.items:
-        tq_ = p.resolve(it.context_expr.func, bf) if isinstance(
+        tq_ = cm_target(it.context_expr, bf) if isinstance(
             it.context_expr, ast.Call) else None
         if tq_ in writers or (tq_ in p.classes and
                               f'{tq_}.__enter__' in writers):
@@ -509,6 +521,7 @@ def _first_segment(e):
 
 
 def _message_path(ctx: Ctx, rs: RuleSet):
+  from fdlstatic.rules import c08
   p = ctx.p
   rule = 'DEFUSE.message-path'
   rs.declare(rule, 'the diagnostic names the current_path of the state that '
@@ -556,6 +569,22 @@ def _message_path(ctx: Ctx, rs: RuleSet):
                    for a in e.args[1:]]
           ok = (len(names) >= 2 and names[0] in path_param and
                 names[1] == cb.params[0])
+    # ... or a closure / lambda that calls the message function
+    closure = None
+    if isinstance(la, ast.Name) and la.id in cb.nested:
+      closure = cb.nested[la.id]
+    elif isinstance(la, ast.Lambda):
+      closure = next((l_ for l_ in cb.lambdas if l_.node is la), None)
+    if closure is not None and mm is None:
+      ret_, _ = c08.fn_return(closure)
+      if isinstance(ret_, ast.Call):
+        tq = p.resolve(ret_.func, closure)
+        if tq in p.funcs:
+          mm = p.funcs[tq]
+          names = [a.id if isinstance(a, ast.Name) else None
+                   for a in ret_.args]
+          ok = (len(names) >= 2 and names[0] in path_param and
+                names[1] == cb.params[0] and not closure.params)
   if mm is None:
     mm = ctx.func(mm_q)
   mm_q = mm.qualname
